@@ -33,6 +33,9 @@ func DecodeEscape(in *bytes.Buffer, byteMode bool) (out *bytes.Buffer, err error
 			if byteMode {
 				out.WriteByte(byte(cout))
 			} else {
+				if cout > 0x10FFFF {
+					return py.ExceptionNewf(py.ValueError, "illegal Unicode character at position %d", i-2)
+				}
 				out.WriteRune(rune(cout))
 			}
 		} else {
